@@ -231,6 +231,11 @@ func init() {
 			fail("rows.go: (*File).loadStringItems")
 		}
 		fmt.Fprintf(w, "def sharedStringItemFresh : Bool := %s\n", c04bool(freshSI))
+		if funcDecl("xlsxWorksheet", "checkSheetR0") == nil {
+			fail("excelize.go: (*xlsxWorksheet).checkSheetR0")
+		}
+		fmt.Fprintf(w, "def r0RunningCol : Bool := %s\n", c04bool(mentions("xlsxWorksheet", "checkSheetR0", "col = prevCol + 1")))
+		fmt.Fprintf(w, "def r0KeepsRowAttrs : Bool := %s\n", c04bool(mentions("xlsxWorksheet", "checkSheet", "*slot = r0Row")))
 		fmt.Fprintf(w, "def getRowsReturnsMaxRows : Bool := %s\n", c04bool(mentions("File", "GetRows", "err == ErrMaxRows") && mentions("File", "GetRows", "rows.Error()")))
 		fmt.Fprintf(w, "def checkSheetBoundsRows : Bool := %s\n", c04bool(mentions("xlsxWorksheet", "checkSheet", "r.R > TotalRows")))
 		fmt.Fprintf(w, "def checkRowSizesByGreatest : Bool := %s\n", c04bool(mentions("xlsxWorksheet", "checkRow", "colNum > lastCol")))
